@@ -77,6 +77,21 @@ CHECKS = {
            "trusted; numpy indexing as modelled; document round trip is _partial: open findings C18:doc-cell-and-morphology-share-name "
            "and C18:doc-cell-morphology-named-vertices."),
  },
+ "C02": {
+  "category": "proof",
+  "technique": "Lean 4 proof over tables regenerated from nml.py and the XSD (kernel-checked agreement) + libxml2 correspondence/oracle",
+  "design_ref": "DESIGN.md §5 C02",
+  "text": ("c02_validate_accepts: a tree every component of which satisfies the items the SCHEMA prescribes (required attributes, "
+           "simple-type facets, cardinalities) is accepted by validate(recursive=True) - from the kernel-checked obligation tables_agree "
+           "(validate_ checks exactly those items, class by class; same attribute/element names; children in particle order; list-ness = "
+           "maxOccurs; child class = element type), facets_agree and content_order_agrees (inherited children first, pairwise distinct "
+           "tags). c02_seq_word_valid / c02_children_valid: for every type whose content model is built from sequences of element "
+           "particles, the child-tag word export writes for in-range counts is accepted by the sequence matcher (export_child_tags ties "
+           "the word to exportObj). Types with choice groups or wildcards are decided by the libxml2 oracle only; GateKS is an open finding."),
+  "note": ("Trusted: both translators; libxml2 assumed to implement the formalised subset (sampled by a content-model stream on reordered, "
+           "duplicated and deleted children); simple-type validity abstract (facets compared syntactically); attribute-level XSD validity "
+           "(undeclared attributes, lexical spaces) is covered by the oracle, not by a theorem; partial: choice/any content models."),
+ },
  "C03": {
   "category": "proof",
   "technique": "Lean 4 proof over tables regenerated from nml.py and the XSD (kernel-checked agreement) + validate-walk correspondence + libxml2 oracle",
@@ -116,7 +131,7 @@ def _from_notes(pid):
             "text": bullet("level_claimed.text") or bullet("level_claimed"), "note": bullet("level_note")}
 
 
-FROM_NOTES = ["C12", "C13", "C19"]
+FROM_NOTES = ["C12", "C13", "C16", "C17", "C19"]
 for _p in FROM_NOTES:
     try:
         CHECKS[_p] = _from_notes(_p)
